@@ -137,6 +137,27 @@ def cmpTable (name : String) (impl model : Table) : List String :=
 
 def parseTable (toks : List String) : Option Table := allSome ((rowsOf toks).map parseTableRow)
 
+/-- Two rationals that differ, but by less than binary64 arithmetic can be trusted to resolve. -/
+def nearButNotEqual (a b : Rat) : Bool :=
+  a != b && Spec.close a b
+
+/-- Decisions of the cascade whose two sides are computed in floating point by the implementation and in
+exact rationals by the model, and that are too close to call (DESIGN.md §3.1): such a scene is not counted as
+a disagreement. Over-approximates: all pairs are inspected, not only the ones the loop visits. -/
+def nearTies (P : PPrms String) (slices groups : Table) (as : List BordRec) (gm : List GmmRec) : List String :=
+  let pad := P.padPerc / 100
+  let ov : List String := (slices.map fun ri => slices.filterMap fun rj =>
+      if nearButNotEqual (ri.hmin - pad * ri.thick) (rj.hmax + pad * rj.thick) ||
+         nearButNotEqual (ri.hmax + pad * ri.thick) (rj.hmin - pad * rj.thick) then some "slice-overlap" else none).flatten
+  let bases := slices.map (·.base) ++ groups.map (·.base)
+  let sep : List String := (bases.map fun a => bases.filterMap fun b =>
+      if P.minSepVals.any (fun v => nearButNotEqual (b - a) v) then some "group-separation" else none).flatten
+  let comp : List String := (as.map fun r => (r.bases.map fun a => r.bases.filterMap fun b =>
+      if P.minSepVals.any (fun v => nearButNotEqual (b - a) v) then some "component-separation" else none).flatten).flatten
+  let sc : List String := (gm.map fun a => gm.filterMap fun b =>
+      if a.vals == b.vals && nearButNotEqual b.score (P.gmmGain * a.score) then some "mixture-score" else none).flatten
+  (ov ++ sep ++ comp ++ sc).eraseDups
+
 def handleRun (ws : List String) : String :=
   let ss := parseSecs ("HEAD" :: ws)
   let ptoks := sec ss "PRM"
@@ -191,7 +212,9 @@ def handleRun (ws : List String) : String :=
       (Spec.c05 P.toPrms o ++ Spec.c06 P.toPrms o ++ Spec.c07 P.toPrms o ++
        perTable tS sids (msgs.getD 0 "") ++ perTable tG gids (msgs.getD 1 "") ++ perTable tL lids (msgs.getD 2 "")).map
         ("SPEC " ++ ·)
-    let all := pre ++ cmp ++ spec
+    let notes : List String :=
+      if cmp.isEmpty then [] else (nearTies P tS tG as gm).map ("NOTE float-near-tie " ++ ·)
+    let all := pre ++ cmp ++ spec ++ notes
     if all.isEmpty then "RUN ok" else "RUN " ++ "; ".intercalate all
   | _, _, _, _, _, _, _, _ => "RUN bad-request"
 
